@@ -194,3 +194,18 @@ def run_case(rng, tier, case):
                            imin=int(mk.index.min()), imax=int(mk.index.max()))
     case.event('asset_setup', rec.counts['asset_setup']); case.event('portfolio_setup', rec.counts['portfolio_setup'])
     case.nontrivial = n_assets_with_vars >= 2 and nodal >= 1
+
+
+def _is_f62(v, rec):
+    # ScaledAsset whose base asset has variables without mapping rows (orders outside the time grid): matrix columns of the asset's own problem are
+    # counted over the mapped variables only
+    if v.get('cls') != 'ScaledAsset':
+        return False
+    if v.get('clause') == 'asset.dims_matrix':
+        A = v.get('A') or [0, 0]
+        return bool(v.get('n') is not None and len(A) == 2 and A[1] < v['n'])
+    # (the same fact seen from the portfolio: the asset's compact columns land on its mapped variables, not on offset + column number)
+    return v.get('clause') in ('asset.unmapped_inert', 'portfolio.asset_rows_embedded')
+
+
+CLASSIFIERS = {'c07_scaled_asset_over_base_with_unmapped_variables': _is_f62}
